@@ -264,6 +264,21 @@ def run_database(sx, cfg, env):
     sx.require("layer" in rep, "common-layer-is-compared")
     if "layer" in rep:
         _require_only(sx, rep["layer"])
+    if kind == "same":
+        # the same Comparison object compares a second pair: this time the old database lacks a
+        # service, which must be reported as new whatever the first comparison found
+        older, _, _ = _layers(dict(BASE), dict(BASE))
+        older_spec = base_spec(dict(BASE))
+        older_spec["services"] = [x for x in older_spec["services"] if x["name"] != "reset"]
+        from catalogue import build
+        older = build.build_layer(older_spec)
+        newer = build.build_layer(base_spec(dict(BASE)))
+        with warnings.catch_warnings():
+            warnings.simplefilter("ignore")
+            rep2 = c.compare_databases(types.SimpleNamespace(diag_layers=[newer]),
+                                       types.SimpleNamespace(diag_layers=[older]))
+        sx.require("layer" in rep2 and _names(rep2["layer"]["new_services"]) == ["reset"],
+                   "a-second-comparison-on-the-same-object-reports-its-own-differences")
 
 
 def run_overview(sx, cfg, env):
